@@ -494,7 +494,7 @@ def case_clone_stdout_full():
 
 
 def case_blocked(what):
-    """/repo db722e3c: a node of HEAD's working log (or of .git/ai itself) that cannot be read / written at all, with AI work staged and an
+    """/repo 767cab50: a node of HEAD's working log (or of .git/ai itself) that cannot be read / written at all, with AI work staged and an
     INITIAL file: two later commits (and a `git status`) must behave like plain git"""
     def run_case():
         with e2e.Env() as env:
@@ -546,11 +546,11 @@ CASES = {"o12-torn-checkpoints-with-initial": case_o12, "clone-stdout-full": cas
          # seeded/C07-seed1: the entry's snapshot deleted / made non-UTF-8, a person retypes the agent's lines in place
          "lost-entry-snapshot-retyped": case_snapshot(("ckpt", "delete", "retype", "all", 7001)),
          "nonutf8-entry-snapshot-inserted-above": case_snapshot(("ckpt2", "byte-ff", "insert-above", "latest", 7002)),
-         # /repo 0b914ae9: INITIAL's recorded snapshot deleted, a person retypes the pending lines
+         # /repo 225ad875: INITIAL's recorded snapshot deleted, a person retypes the pending lines
          "lost-initial-snapshot-retyped": case_snapshot(("initial", "delete", "retype", "all", 7003)),
-         # /repo 5a89ac1a: a directory at the path of the blob the checkpoint is about to write
+         # /repo d58396a6: a directory at the path of the blob the checkpoint is about to write
          "blob-slot-is-a-directory": case_snapshot(("ckpt", "directory", "keep", "all", 7004)),
-         # /repo db722e3c: private state that cannot be read or written at all
+         # /repo 767cab50: private state that cannot be read or written at all
          "checkpoints-replaced-by-directory": case_blocked("checkpoints-directory"),
          "checkpoints-dangling-link": case_blocked("checkpoints-dangling-link"),
          "blobs-replaced-by-file": case_blocked("blobs-file"),
